@@ -730,6 +730,121 @@ example : locSlice [0, 5, 18, 25, 28] (some 40) none = some ⟨3, 3, [40, 40]⟩
 example : locSliceParts (fun (k : Nat) => k) [[0, 2], [5, 9], [18, 20], [25, 28]] ⟨1, 3, [6, 18, 25, 28]⟩ (some 6) none =
     some [[9], [18, 20], [25, 28]] := by decide
 
+theorem bisectLeft_mono {xs : List Nat} {x y : Nat} (hxy : x ≤ y) : bisectLeft xs x ≤ bisectLeft xs y := by
+  unfold bisectLeft
+  induction xs with
+  | nil => simp
+  | cons a as ih =>
+    simp only [List.takeWhile_cons]
+    by_cases h1 : a < x
+    · have h2 : a < y := by omega
+      simp only [h1, h2, decide_true, if_true, List.length_cons]
+      omega
+    · simp [h1]
+
+theorem bisectLeft_zero_of_le {xs : List Nat} {x : Nat} (h : ∀ a ∈ xs, x ≤ a) : bisectLeft xs x = 0 := by
+  unfold bisectLeft
+  cases xs with
+  | nil => rfl
+  | cons a as =>
+    have := h a List.mem_cons_self
+    have h1 : ¬ a < x := by omega
+    simp [List.takeWhile_cons, h1]
+
+/-- on a sorted list everything from position `bisect_left xs x` on is `≥ x` -/
+theorem bisectLeft_ge_from {xs : List Nat} (hs : Sorted xs) (x t v : Nat) (ht : bisectLeft xs x ≤ t)
+    (hv : xs[t]? = some v) : x ≤ v := by
+  have htl := (List.getElem?_eq_some_iff.mp hv).1
+  have hb : bisectLeft xs x < xs.length := by omega
+  have hbv := List.getElem?_eq_getElem hb
+  have h1 := bisectLeft_ge xs x _ hbv
+  have h2 := sorted_get_le hs ht hbv hv
+  omega
+
+/-- **`dd.repartition(pandas_frame, divisions)`** (`FromPandasDivisions`): the sorted frame cut at the first position
+    at or after each division value is described truthfully by the divisions and keeps all rows in order — for every
+    sorted frame and every non-decreasing division vector (two entries at least) that spans the data. -/
+theorem from_pandas_divisions_truthful {α : Type} (key : α → Nat) (rows : List α) (b : List Nat) (b0 bL : Nat)
+    (hs : Sorted (rows.map key)) (hb : b.Pairwise (· ≤ ·)) (hb2 : 2 ≤ b.length)
+    (h0 : b.head? = some b0) (hl : b.getLast? = some bL)
+    (hspan : ∀ r ∈ rows, b0 ≤ key r ∧ key r ≤ bL) :
+    Truthful key b (cut rows (pandasDivLocs (rows.map key) b)) ∧
+      (cut rows (pandasDivLocs (rows.map key) b)).flatten = rows := by
+  have hklen : (rows.map key).length = rows.length := List.length_map _
+  have hdl : b.dropLast.length = b.length - 1 := List.length_dropLast
+  have hloclen : (pandasDivLocs (rows.map key) b).length = b.length := by
+    simp only [pandasDivLocs, List.length_append, List.length_map, hdl, List.length_cons, List.length_nil]; omega
+  -- a location by position
+  have hlocget : ∀ j, j + 1 < b.length → ∀ y, b[j]? = some y →
+      (pandasDivLocs (rows.map key) b)[j]? = some (bisectLeft (rows.map key) y) := by
+    intro j hj y hy
+    unfold pandasDivLocs
+    rw [List.getElem?_append_left (by simp only [List.length_map, hdl]; omega), List.getElem?_map,
+      List.getElem?_dropLast, if_pos (by omega), hy]; rfl
+  have hloclast : (pandasDivLocs (rows.map key) b)[b.length - 1]? = some rows.length := by
+    unfold pandasDivLocs
+    rw [List.getElem?_append_right (by simp only [List.length_map, hdl]; omega)]
+    simp [hdl, hklen]
+  have hb0 : b[0]? = some b0 := by cases b with | nil => cases h0 | cons x _ => simpa using h0
+  have hbLi : b[b.length - 1]? = some bL := by rw [← List.getLast?_eq_getElem?]; exact hl
+  have hblle : ∀ x, bisectLeft (rows.map key) x ≤ rows.length := by
+    intro x; rw [← hklen]; exact bisectLeft_le_length _ _
+  -- the locations: start at 0, end at len, non-decreasing
+  have hhead : (pandasDivLocs (rows.map key) b).head? = some 0 := by
+    have := hlocget 0 (by omega) b0 hb0
+    rw [bisectLeft_zero_of_le (x := b0) (by
+      intro a ha
+      obtain ⟨r, hr, rfl⟩ := List.mem_map.mp ha
+      exact (hspan r hr).1)] at this
+    cases hq : pandasDivLocs (rows.map key) b with
+    | nil => rw [hq] at this; simp at this
+    | cons x _ => rw [hq] at this; simpa using this
+  have hlast : (pandasDivLocs (rows.map key) b).getLast? = some rows.length := by
+    unfold pandasDivLocs; rw [List.getLast?_append]; simp [hklen]
+  have hmono : (pandasDivLocs (rows.map key) b).Pairwise (· ≤ ·) := by
+    unfold pandasDivLocs
+    rw [List.pairwise_append]
+    refine ⟨?_, List.pairwise_singleton _ _, ?_⟩
+    · rw [List.pairwise_map]
+      exact (List.Pairwise.sublist (List.dropLast_sublist b) hb).imp (fun h => bisectLeft_mono h)
+    · intro x hx y hy
+      simp only [List.mem_singleton] at hy
+      subst hy
+      obtain ⟨u, _, rfl⟩ := List.mem_map.mp hx
+      rw [hklen]; exact hblle u
+  refine ⟨⟨by rw [cut_eq_chunks, chunks_length, hloclen]; omega, hb, ?_⟩, ?_⟩
+  · intro j p lo hi hp hlo hhi r hr
+    rw [cut_eq_chunks] at hp
+    obtain ⟨la, lb, hla, hlb, rfl⟩ := (chunks_getElem? rows _ j p).mp hp
+    obtain ⟨t, hat, htb, hrt⟩ := mem_pySlice rows la lb r hr
+    have hkt : (rows.map key)[t]? = some (key r) := by simp [List.getElem?_map, hrt]
+    have hj1 : j + 1 < b.length := by
+      have := (List.getElem?_eq_some_iff.mp hhi).1; omega
+    rw [hlocget j hj1 lo hlo] at hla
+    cases hla
+    refine ⟨bisectLeft_ge_from hs lo t _ hat hkt, ?_⟩
+    rcases Nat.lt_or_ge (j + 2) b.length with hnl | hl'
+    · -- not the last partition: position below the first occurrence of the next division
+      rw [hlocget (j + 1) hnl hi hhi] at hlb
+      cases hlb
+      obtain ⟨v, hv, hvlt⟩ := bisectLeft_lt (rows.map key) hi t htb
+      rw [hkt] at hv; cases hv
+      exact Or.inl hvlt
+    · -- the last partition: closed by the span hypothesis
+      have hje : j + 1 = b.length - 1 := by omega
+      rw [hje, hbLi] at hhi
+      cases hhi
+      right
+      refine ⟨by rw [cut_eq_chunks, chunks_length, hloclen]; omega, ?_⟩
+      exact (hspan r (List.mem_of_getElem? hrt)).2
+  · rw [cut_eq_chunks, chunks_flatten rows _ 0 rows.length hhead hlast hmono, pySlice_full]
+
+example : pandasDivLocs [0, 1, 2, 3, 4, 5, 6, 7, 8, 9] [0, 5, 12, 15] = [0, 5, 10, 10] := by decide
+example : cut [0, 1, 2, 3, 4, 5, 6, 7, 8, 9] (pandasDivLocs [0, 1, 2, 3, 4, 5, 6, 7, 8, 9] [0, 5, 12, 15]) =
+    [[0, 1, 2, 3, 4], [5, 6, 7, 8, 9], []] := by decide
+example : pandasDivLocs [0, 0, 2, 3, 3, 5, 6, 9, 9, 9] [0, 4, 9, 9] = [0, 5, 7, 10] := by decide
+
+
 /-- **`set_index` with divisions that span the data** (given by the user, or computed as quantiles) reports truthful
     divisions: `set_partitions_pre` routes every row to the interval of the divisions holding its key, the staged task
     shuffle delivers exactly those rows, and the per-partition sort keeps them — proved in the C40 development
